@@ -6,7 +6,7 @@ import os
 import tempfile
 import warnings
 from dataclasses import dataclass, field
-from typing import Optional
+from typing import Optional, Union
 from xml.etree import ElementTree as ET
 from xml.etree.ElementTree import QName
 
@@ -31,6 +31,22 @@ class HKid:
 
 
 @dataclass
+class HUa:
+    class Meta:
+        namespace = NS_M
+
+    inner: Optional[HKid] = field(default=None, metadata={"type": "Element"})
+
+
+@dataclass
+class HUb:
+    class Meta:
+        namespace = NS_M
+
+    other: Optional[int] = field(default=None, metadata={"type": "Element"})
+
+
+@dataclass
 class HRoot:
     class Meta:
         namespace = NS_M
@@ -38,6 +54,7 @@ class HRoot:
     pre: list[HKid] = field(default_factory=list, metadata={"type": "Element"})      # decoys in front of the chain (scoping_doc)
     items: list[QName] = field(default_factory=list, metadata={"type": "Element", "name": "q", "wrapper": "wrap"})
     kid: Optional[HKid] = field(default=None, metadata={"type": "Element"})
+    u: Optional[Union[HUa, HUb]] = field(default=None, metadata={"type": "Element"})     # a union-typed middle (4 levels)
 
 
 @dataclass
@@ -90,6 +107,9 @@ def scoping_doc(levels, prefix: str, decoys: bool = False) -> str:
     the expected values are those of the document without decoys."""
     mid = "wrap" if levels[1]["kind"] == "wrapper" else "kid"
     val = f"{prefix}:x" if prefix else "x"
+    if levels[1]["kind"] == "union":
+        return (f'<m:HRoot xmlns:m="{NS_M}"{decl_text(levels[0]["decls"])}><m:u{decl_text(levels[1]["decls"])}>'
+                f'<m:inner{decl_text(levels[2]["decls"])}><m:q>{val}</m:q></m:inner></m:u></m:HRoot>')
     pre = ""
     if decoys:
         pre = (f'<m:pre{decl_text(levels[2]["decls"])}><m:q>m:d1</m:q></m:pre>'
@@ -103,6 +123,8 @@ def scoping_doc(levels, prefix: str, decoys: bool = False) -> str:
 def leaf_value(obj):
     if obj.items:
         return obj.items[0]
+    if obj.u is not None:
+        return obj.u.inner.q if getattr(obj.u, "inner", None) else None
     return obj.kid.q if obj.kid else None
 
 
